@@ -163,6 +163,15 @@ def main(tier):
                 kw_ = {'cflags': ('-O0', '-ftrivial-auto-var-init=pattern')} if probes_ else {}
                 pending.append((label, b, ex.submit(run_batch, b, w2c2=w2c2, **kw_)))
                 drain(NCPU * 3)
+        # every instruction of the supported set as DEAD code on an empty operand stack (after unreachable / return / br): the function must still
+        # trap / return as if the dead instruction were not there (modules of checks/c10.py, which sends them through the ASan translator)
+        import c10
+        for n_, d_ in c10.dead_instruction_modules():
+            names_ = c10.dead_instruction_modules.names
+            cases_ = [Case('d%d' % (k + 1), 'i', 'v', 0, -1, '%s: %s' % (n_.split(' (')[0], nm)) for k, nm in enumerate(names_)]
+            bd = Batch(d_, cases_, [('explicit', [(1,)])])
+            per.setdefault('dead-instructions', {'bodies': 0, 'evaluations': 0, 'nontrivial': 0})
+            pending.append(('dead-instructions', bd, ex.submit(run_batch, bd, w2c2=w2c2, cc='gcc', cflags=('-O0', '-pthread'), defines=('-DWASM_THREADS_PTHREADS',))))
         drain(0)
     if capped:
         # the base passes (every alphabet up to its base N) are complete unless marked capped; only extension passes may be cut
